@@ -282,7 +282,7 @@ func runStop(t *testing.T, rc *core.RunCtx) {
 
 	// Phase 4: close everything and reopen the data directory.
 	for _, p := range w.peers {
-		p.up = false
+		p.setUp(false)
 	}
 	w.closeAllConns()
 	synctest.Wait()
